@@ -190,7 +190,8 @@ class C19(PropBase):
         "is_possibly_allowed_for arms, NON_CANONICAL_RANGE, GPF constants, guard + index expression of the NEARBY_REGISTER lookup -> Gen/C19Check.v",
         "translate/c19_src.py: try_bit_flips, calculate_heuristics, try_detect_null_pointer_in_disguise, try_get_non_canonical_crash_address, the "
         "adjusted-address chain of get_exception_details, represents_general_protection_fault, MinidumpException::get_crash_address, "
-        "MemoryAddressInfo::try_from_operand and the implicit stack accesses of op_analysis.rs COMPILED statement by statement in a small grammar "
+        "MemoryAddressInfo::try_from_operand and the implicit stack accesses of op_analysis.rs, the permission predicates of MinidumpMemoryInfo (MemoryProtection "
+        "flag sets -> masks) and MinidumpLinuxMapInfo, the number_parameters guard of the access-violation refinement COMPILED statement by statement in a small grammar "
         "(expression compiler, guard/item lists, match arms) -> Gen/C19Src.v; C19/Source.v is the reading of that grammar (how a guard / item / gate "
         "list is executed); aborts on Rust outside the grammar; textual pins that remain: the address list handed to the adjusted-address helpers, "
         "the statement skeletons of calculate_heuristics / try_from_operand, fragments of from_{windows,linux,mac}_exception",
